@@ -389,7 +389,7 @@ def run_shard(ctx):
             if ctx.tier == "thorough" or rng.random() < 0.3:
                 seq.append((rng.choice(KINDS), rng.choice(cl)))
             ok = ctx.guarded(run_sequence, ctx, lib, seq, "test-model", timeout=120)
-            ctx.case({"l": lib.label, "s": seq}, bool(ok), {"library": lib.label, "sequence": seq} if ctx.cases < 1 else None)
+            ctx.case({"l": lib.label, "s": seq}, bool(ok), {"library": lib.label, "sequence": seq} if not ctx.samples else None)
     # thorough: longer random sequences over the test models
     if ctx.tier == "thorough":
         for _ in range(400):
@@ -409,7 +409,7 @@ def run_shard(ctx):
             continue
         seq = [(rng.choice(KINDS), rng.choice(cl)) for _ in range(rng.randint(2, 6 if ctx.tier == "thorough" else 4))]
         ok = ctx.guarded(run_sequence, ctx, lib, seq, "generated", timeout=120)
-        ctx.case({"t": lib.texts, "s": seq}, bool(ok), {"library": lib.texts[0][:1500], "sequence": seq} if ctx.cases < 2 else None)
+        ctx.case({"t": lib.texts, "s": seq}, bool(ok), {"library": lib.texts[0][:1500], "sequence": seq} if len(ctx.samples) < 2 else None)
         for t in getattr(lib, "tags", ()):
             ctx.cover("gen:" + t)
         # (c) CLI on a fraction of them
